@@ -91,6 +91,8 @@ def run_kaldi(cfg):
             s.bank = Bank(rate)
             s.sampling_rate = rate
 
+        num_coeffs = 7
+
         def compute_full(s, v):
             return Vec(CF(v.t))
 
@@ -134,6 +136,12 @@ def run_kaldi(cfg):
         float64 = 'f64'
         float32 = 'f32'
         random = types.SimpleNamespace(seed=lambda s: rng.seed(s))
+
+        @staticmethod
+        def empty(shape, dtype=None):
+            # a matrix allocated by the tool itself (not computed from the utterance): a constant of its own
+            return Vec(z3.Const('allocated_%s' % '_'.join(str(x) for x in shape), A))
+        zeros = empty
 
     ns.update(np=NPx, len=slen, int=symex.sint, logging=types.SimpleNamespace(getLogger=lambda n: Log(), StreamHandler=lambda: None))
     ns['_compute_feats_from_kaldi_tables_parse_args'] = parse
@@ -238,7 +246,12 @@ def run_kaldi(cfg):
                 w['nframes_' + str(uid_)] = m.eval(nt, True).as_long()      # how many frames the computer produced in this witness
             except Exception:
                 pass
-        w['class'] = 'kaldi/%s/%s' % (res[0], (res[1] if res[0] == 'exception' else '').split(':')[0])
+        zero = [u_ for u_ in range(nutt) if w.get('nframes_utt%d' % u_) == 0]
+        skipped = [u_ for u_ in range(nutt) if w.get('mismatch%d' % u_) or w.get('short%d' % u_)]
+        w['class'] = 'kaldi/%s/%s/%d utterances, zero-frame: %s, skipped: %s, stored: %s' % (
+            res[0], (res[1] if res[0] == 'exception' else '').split(':')[0], nutt, zero, skipped,
+            'a matrix allocated by the tool' if 'allocated' in w['detail'] else ('features of another utterance' if any(
+                'buf%d' % o_ in w['detail'] and ("'utt%d'" % o_) not in w['detail'] for o_ in range(nutt)) else 'other'))
         viol.append(w)
     samples.append({'config': cfg['name'], 'pipeline_term': 'f32(post_j(...compute_full(pre_i(...f64(chan(buf, c))...))))'})
     return dict(obligations=ob, discharged=dis, violations=viol, samples=samples, twin=dis > 0)
@@ -693,6 +706,16 @@ def replay(w):
                     nsamp, at_min = n_, False
                     break
         sigs = {'utt%d' % u: (rng.randn(nchan, nsamp) * 1000).astype(np.float64) for u in range(max(1, w.get('nutt', 1)))}
+        zero_frame = set()
+        if w['kind'] == 'kaldi' and w.get('nutt', 1) > 1:
+            # a witness in which some utterances yield no frame while others do: those get a signal too short for one frame
+            zero_frame = {'utt%d' % u for u in range(w['nutt']) if w.get('nframes_utt%d' % u) == 0}
+            if len(zero_frame) < w['nutt']:
+                for k_ in zero_frame:
+                    sigs[k_] = (rng.randn(nchan, 20) * 1000).astype(np.float64)
+                at_min = False      # no --min-duration: the short utterance must reach the computer
+            else:
+                zero_frame = set()
 
         def pipeline(x, with_comp=True):
             for p in pre:
@@ -763,7 +786,13 @@ def replay(w):
                     continue
                 if k not in got:
                     return {'reproduced': True, 'detail': 'utterance %s missing from the feature table (rc=%s)' % (k, rc)}
+                if k in zero_frame:
+                    if got[k].shape[0] != 0:
+                        return {'reproduced': True, 'detail': 'utterance %s (20 samples, too short for a frame) is stored with %d rows: the features of another utterance (rc=%s)' % (k, got[k].shape[0], rc)}
+                    continue
                 want = pipeline(sigs[k][max(chan, 0)])
+                if got[k].shape[0] == 0 and want.shape[0] == 0:
+                    continue        # a Kaldi table does not keep the column count of a matrix without rows
                 if got[k].shape != want.shape or not np.allclose(got[k], want, rtol=1e-4, atol=1e-4):
                     return {'reproduced': True, 'detail': 'stored features for %s have shape %s, library pipeline (pre=%d, post=%d) gives %s%s'
                             % (k, got[k].shape, len(pre), len(post), want.shape, '' if got[k].shape != want.shape else ' (max diff %.3g)' % np.abs(got[k] - want).max())}
